@@ -1138,6 +1138,13 @@ def run(prop, tier, replay=None):
                  and all(s[0] in ('enq', 'nextnb', 'close', 'restart', 'restartP', 'kill', 'term') for s in j['hist'])]
         for j in rng.sample(plain, len(plain) // 5):
             j['ownrun'], j['mut'] = True, False
+        # a target that damages every mutable argument it is given: the next incarnation must start from the ORIGINAL defaults
+        # (thread kind: restart() re-uses the very objects the constructor was given); plain histories without kills only
+        calm = [j for j in plain if not j.get('ownrun') and all(s[0] in ('enq', 'nextnb', 'close', 'restart', 'restartP') for s in j['hist'])
+                and any(s[0] == 'enq' for s in j['hist'])]
+        for j in rng.sample(calm, min(len(calm), max(12, len(calm) // 6))):
+            j['mut'] = True
+        ev.cov['restart_replays_with_argument_damaging_target'] = sum(1 for j in jobs if j.get('mut'))
         for kind in KINDS:
             for ops_ in (['restart'], ['enq', 'restart', 'enq'], ['restartP', 'enq', 'restart', 'enq']):
                 j = add(kind, [[o, '?', 'F', 'idle', 0] for o in ops_], mode='eager')
